@@ -478,6 +478,10 @@ class PointCloud(Geometry3D):
 
         # copy visual data
         copied.visual = copy.deepcopy(self.visual)
+        if hasattr(copied.visual, "obj"):
+            # the copied colors belong to the copied points and
+            # not to the clone of the points `deepcopy` made on the way
+            copied.visual.obj = copied
 
         # get metadata
         copied.metadata = copy.deepcopy(self.metadata)
